@@ -35,6 +35,34 @@ let handle (line : string) : string =
        | Inr EValue -> "valueerror"
        | Inr EFuel -> "fuel"
        | Inr EUnsupported -> "unsupported")
+  | ["wcsplit"; fl; p] ->
+      enc_list enc_str (wcsplit linux (z_of_int (int_of_string fl)) (dec_str p))
+  | ["lists"; tr; isb; fl; lim; pats; ex; btab] ->
+      (* pats: comma list or "[]"; ex: "none" or comma list or "[]"; btab: ';' list of pat@lim=!|list *)
+      let dl s = if s = "[]" then [] else List.map dec_str (String.split_on_char ',' s) in
+      let tab = if btab = "[]" then [] else
+        List.map (fun e ->
+          match String.split_on_char '=' e with
+          | [k; v] ->
+            (match String.split_on_char '@' k with
+             | [p; l] -> ((dec_str p, int_of_string l), (if v = "!" then None else Some (dl v)))
+             | _ -> failwith "btab")
+          | _ -> failwith "btab") (String.split_on_char ';' btab) in
+      let brace p l =
+        (try List.assoc (p, int_of_z l) tab with Not_found -> raise Exit) in
+      let isb = dec_bool isb in
+      let parse f p = wcparse linux f isb p in
+      (try
+        (match pattern_lists linux brace (fun _ p -> p) (fun _ _ p -> Some p) parse (dec_bool tr) isb
+                 (z_of_int (int_of_string fl)) (z_of_int (int_of_string lim)) (dl pats)
+                 (if ex = "none" then None else Some (dl ex)) with
+         | Inl (pos, neg) -> "ok " ^ enc_list enc_str pos ^ " " ^ enc_list enc_str neg
+         | Inr LLimit -> "limit"
+         | Inr LValue -> "valueerror"
+         | Inr LSyntax -> "syntaxerror"
+         | Inr LFuel -> "fuel"
+         | Inr LUnsupported -> "unsupported")
+      with Exit -> "oraclemiss")
   | _ -> "badrequest"
 
 let () =
